@@ -66,6 +66,66 @@ def run_case(case):
         shutil.rmtree(d, ignore_errors=True)
 
 
+def run_killed(case):
+    """Process 1 (registrations pre) is killed between the blob and its metadata; process 2 (registrations second) stores the key
+    again - the blob is not complete for has_blob - and reads it; process 3 (no user codec unless needed) reads it again."""
+    d = tempfile.mkdtemp(prefix="c17k_", dir=C.scratch_dir())
+    try:
+        v = case["value"]
+        s1 = [{"register": r} for r in case["pre"]] + [{"store_killed": v, "key": "k0"}]
+        o1 = C.run_driver("drive_codec.py", {"dir": d, "steps": s1})
+        s2 = [{"register": r} for r in case["second"]] + [{"has": True, "key": "k0"}, {"store": v, "key": "k0"}, {"fetch": v, "key": "k0"}, {"raw": True, "key": "k0"}]
+        o2 = C.run_driver("drive_codec.py", {"dir": d, "steps": s2})
+        s3 = [{"register": r} for r in case["second"]] + [{"fetch": v, "key": "k0"}]
+        o3 = C.run_driver("drive_codec.py", {"dir": d, "steps": s3})
+        return {"case": case, "o1": o1, "o2": o2, "o3": o3}
+    except Exception as e:  # noqa
+        return {"case": case, "error": str(e)[-400:]}
+    finally:
+        shutil.rmtree(d, ignore_errors=True)
+
+
+def check_killed(rep, rng, n):
+    cases = []
+    strs = [v for v in VALUES if v[0] in ("str", "bytes")]
+    for i in range(n):
+        v = rng.choice(strs if i % 2 == 0 else VALUES)
+        mine = [r for r in REGS if r.get("type") == v[0]] or REGS
+        pre, second = ([], [rng.choice(mine)]) if i % 2 == 0 else ([rng.choice(mine)], [])
+        if i % 4 >= 2:
+            pre, second = pre + rng.sample(REGS, 1), second + rng.sample(REGS, 1)
+        cases.append({"value": v, "pre": pre, "second": second})
+    with cf.ThreadPoolExecutor(max_workers=C.NPROC) as ex:
+        res = list(ex.map(run_killed, cases))
+    exprs = ["run_select [" + "; ".join(reg_coq(r) for r in c["second"]) + f"] {C.hexs(type_name(c['value']))}" for c in cases]
+    model = C.coq_eval_strings(PRELUDE, exprs, label="c17k")
+    n_killed = 0
+    for r, m in zip(res, model):
+        c = r["case"]
+        v = c["value"]
+        rep.case("killed-before-metadata:" + json.dumps(c)[:300], nontrivial=True)
+        if "error" in r:
+            rep.violation("harness-error:c17k", r["error"][-300:], r, no_input=True)
+            continue
+        if r["o1"][-1] != "K":
+            continue            # the write was refused (no codec) or did not reach the metadata: nothing to recover from
+        n_killed += 1
+        k = len(c["second"])
+        has, st, f2, raw = r["o2"][k:k + 4]
+        f3 = r["o3"][-1]
+        what = f"a {v[0]} written under registrations {[x['ref'] for x in c['pre']]}, killed before its metadata, stored again under {[x['ref'] for x in c['second']]}"
+        if has != "B0":
+            rep.violation("killed:blob-without-metadata-reported-present", f"{what}: has_blob answers true for a blob without metadata", {"killed_case": c, "o2": r["o2"]})
+        if st != "S:" + m:
+            rep.violation("model-mismatch:codec-selection-after-kill", f"{what}: metadata names {st}, the model of the registry selects {m}", {"killed_case": c, "o2": r["o2"]})
+        if f2 != "F:equal" or f3 != "F:equal":
+            rep.violation(f"read-back-differs:{v[0]}:after-kill", f"{what}: read back as {f2[:70]} (same process) / {f3[:70]} (next process)", {"killed_case": c, "o2": r["o2"], "o3": r["o3"]})
+        want = v[1].encode("utf-8").hex() if v[0] == "str" else (v[1] if len(v) > 1 else None)
+        if v[0] in ("str", "bytes", "bytearray") and st in ("S:local.string", "S:local.bytes") and raw != "R:" + want:
+            rep.violation(f"not-verbatim:{v[0]}:after-kill", f"{what}: the blob file is not the text / the bytes themselves", {"killed_case": c, "raw": raw[:80]})
+    return len(cases), n_killed
+
+
 def run(rep, tier, seed, proof_ok):
     rng = random.Random(seed)
     rep.rule = ("values of every storable type (str: empty / ascii / non-ASCII incl. astral / 200 kB / CR, CRLF and other line separators, NUL, BOM; bytes: empty / binary / 140 kB; bytearray; "
@@ -74,7 +134,8 @@ def run(rep, tier, seed, proof_ok):
                 "reference 'local.string') before the writes, between write and read, and in a second process in another order; "
                 "checks: value read back equal in both processes, the reference recorded in the metadata is the one the Coq model of "
                 "the registry selects, str / bytes blobs are byte-for-byte the UTF-8 text / the bytes; distinct = distinct case; "
-                "non-trivial = at least one registration between write and read")
+                "non-trivial = at least one registration between write and read; + writer killed between the rename of the blob and the rename of its "
+                "metadata, the key stored again by a process with other registrations, read there and in a third process")
     n = 10 if tier == "quick" and proof_ok else 80
     cases = []
     for i in range(n):
@@ -131,12 +192,17 @@ def run(rep, tier, seed, proof_ok):
                 want = v[1].encode("utf-8").hex() if v[0] == "str" else v[1]
                 if stored_with in ("S:local.string", "S:local.bytes") and x != "R:" + want:
                     rep.violation(f"not-verbatim:{v[0]}", f"the blob file of a {v[0]} result is not the text / the bytes themselves", {"case": c, "value": v[:1], "raw": x[:80]})
-    rep.extra["input_distribution"] = {"cases": len(cases), "writes_by_selected_reference": refs}
+    nk, nk_killed = check_killed(rep, rng, 16 if tier == "quick" and proof_ok else 120)
+    rep.extra["input_distribution"] = {"cases": len(cases), "writes_by_selected_reference": refs, "killed_before_metadata_cases": nk, "of_which_reached_the_kill_point": nk_killed}
     rep.sample({"pre": cases[0]["pre"], "mid": cases[0]["mid"], "value_types": [v[0] for v in cases[0]["values"]]})
 
 
 def replay(path):
     r = json.load(open(path))["replay"]
+    if "killed_case" in r:
+        out = run_killed(r["killed_case"])
+        print(json.dumps({k: out.get(k) for k in ("o1", "o2", "o3", "error")}, indent=1)[:3000])
+        return 1
     out = run_case(r["case"])
     print(json.dumps({"o1": out.get("o1"), "o2": out.get("o2")}, indent=1)[:3000])
     return 1
